@@ -45,6 +45,7 @@ REQUIRED_REACH = [
     "probe:negative_reference_in_probe",
     "probe:probe_itself_fails",
     "probe:fresh_interpreter_probe",
+    "probe:history_failed_the_way_the_probe_fails",
     "probe:history_other_rom_type",
     "probe:history_used_probe_path",
     "probe:history_assembled_probe_text_under_other_layout",
@@ -310,6 +311,27 @@ def gen_case(cseed: int, tier: str) -> dict[str, Any]:
         if ok and not (klass == "unmapped_bank" and not pprog.unmapped_addr) and not (klass in ("run_off_mapped_rom", "address_beyond_24_bits", "branch_64k_away") and "map" in pprog.features):
             pprog = progen.insert_at(pprog, f.choice(ok), error_node(klass, pprog))
             probe["fails_by"] = klass
+    if probe.get("fails_by") and h.random() < 0.5:
+        # an earlier assembly in the same process fails for the *same reason* (same statement text, another
+        # file and line): whatever is remembered about a failure must not be replayed to the probe
+        klass = probe["fails_by"]
+        for attempt in range(4):
+            hp2 = gen_history_program(w, 90 + attempt)
+            prog2 = progen.Prog.from_record(hp2["prog"])
+            ok2 = [s2 for s2 in progen.iter_slots(prog2) if applicable(klass, s2)]
+            if not ok2 or (klass == "unmapped_bank" and not prog2.unmapped_addr) or (klass in ("run_off_mapped_rom", "address_beyond_24_bits", "branch_64k_away") and "map" in prog2.features):
+                continue
+            prog2 = progen.insert_at(prog2, f.choice(ok2), error_node(klass, prog2))
+            pf2, pr2 = prog2.all_files(), prog2.all_roles()
+            pf2["hsame.s"] = pf2.pop("main.s")
+            pr2["hsame.s"] = pr2.pop("main.s")
+            files.update(pf2)
+            roles.update(pr2)
+            sp2 = spec_for(h.choice(["string", "with_emitter", "assemble", "patch", "cli"]), "hsame.s", "hsame_", prog2.mapping, [list(d) for d in prog2.defines], h)
+            if sp2.get("out"):
+                roles[sp2["out"]] = "out_ips" if sp2["out"].endswith(".ips") else "out_sfc"
+            ops.insert(h.randrange(0, len(ops) + 1), {"op": "exec", "spec": sp2, "knobs": {}, "faults": [], "kind": "same_failure", "has_map": "map" in prog2.features, "pool": hp2["pool"], "mapping": prog2.mapping, "insert_class": klass})
+            break
     if w.random() < 0.12 and pprog.mapping == "low" and not probe.get("fails_by") and "map" not in pprog.features:
         # the probe touches the first bank of an unmapped range; a history program walks right up to
         # (and one byte past) the end of the mapped range below it
@@ -355,8 +377,39 @@ def gen_case(cseed: int, tier: str) -> dict[str, Any]:
     return {"files": files, "roles": roles, "ops": ops, "probe_spec": pspec, "probe_meta": {k: probe.get(k) for k in ("negatives", "shared", "fails_by")}, "seed": cseed, "fresh": w.random() < (0.01 if tier == "quick" else 0.03)}
 
 
+MISSPELT = [".inclde 'x.s'", ".inc", ".incl 'x.s'", ".includ_ips 'x.ips', 0", ".ma", ".macr m() {\n}", ".mapp", ".i", ".d", ".s", ".t", ".m", ".a", ".p", ".tabel 'a.tbl'", ".strct h {\n}", ".dq 1", ".poiner x", ".asci 'a'", ".fo i := 0, 2 {\n}", ".el", ".sc x {\n}", ".te 'a'", ".dbb 1", ".d 1", "..db 1"]
+
+
+def interpreter_family() -> list[dict[str, Any]]:
+    """Every error class (and a set of misspelt directives) as a failing probe with an empty history, run
+    alone in a pristine fork and in fresh interpreters under three PYTHONHASHSEED values: the message of a
+    failure is part of the result, and nothing in it may depend on per-process hashing or addresses."""
+    out: list[dict[str, Any]] = []
+    base = progen.gen_program(random.Random(7), "low", {"data", "symbols", "blocks", "macros", "scopes"}, [], size=6, prefix="p_")
+    slots = list(progen.iter_slots(base))
+    texts: list[tuple[str, progen.Prog]] = []
+    for klass in sorted(ERROR_CLASSES):
+        ok = [sl for sl in slots if applicable(klass, sl)]
+        if not ok or (klass == "unmapped_bank" and not base.unmapped_addr):
+            continue
+        texts.append((klass, progen.insert_at(base, ok[len(ok) // 2], error_node(klass, base))))
+    for i, t in enumerate(MISSPELT):
+        texts.append((f"misspelt:{t.split()[0]}", progen.insert_at(base, {"file": "main.s", "path": [], "pos": len(base.root)}, {"k": "error", "t": t})))
+    texts.append(("valid", base))
+    for i, (klass, prog) in enumerate(texts):
+        pf, pr = prog.all_files(), prog.all_roles()
+        pf["probe.s"] = pf.pop("main.s")
+        pr["probe.s"] = pr.pop("main.s")
+        entry = ["string", "cli", "patch", "assemble"][i % 4]
+        pspec = spec_for(entry, "probe.s", "probe_", "low", [], random.Random(i))
+        if pspec.get("out"):
+            pr[pspec["out"]] = "out_ips" if pspec["out"].endswith(".ips") else "out_sfc"
+        out.append({"files": pf, "roles": pr, "ops": [], "probe_spec": pspec, "probe_meta": {"negatives": [], "shared": None, "fails_by": klass}, "seed": 5000 + i, "fresh": True, "family": "interpreter"})
+    return out
+
+
 def plan(tier: str) -> dict[str, Any]:
-    return {"fixed": [], "seeded": 3000 if tier == "quick" else 0, "chunk": 20, "wall_cap_s": 240, "minimise_s": 30}
+    return {"fixed": interpreter_family(), "seeded": 3000 if tier == "quick" else 0, "chunk": 20, "wall_cap_s": 240, "minimise_s": 30}
 
 
 # ---------------------------------------------------------------------------
@@ -445,6 +498,8 @@ def run_case(case: dict[str, Any], stats: Stats) -> list[Violation]:
         if op["op"] != "exec":
             stats.bump("probe:history_used_probe_path" if str(op.get("kind", "")).startswith("same_path") else "probe:history_rewrote_shared_file")
             continue
+        if op.get("kind") == "same_failure" and not o["ok"]:
+            stats.bump("probe:history_failed_the_way_the_probe_fails")
         if op.get("kind") == "same_text_rom":
             stats.bump("probe:history_assembled_probe_text_under_other_layout")
         if op.get("kind") == "same_text_defines":
@@ -477,6 +532,9 @@ def run_case(case: dict[str, Any], stats: Stats) -> list[Violation]:
         out.append(Violation("probe_result_depends_on_history", "after_vs_alone:" + fields, f"probe after the history differs from the probe alone: {explain_diff(r_after, r_alone)}", case, {"history_kinds": kinds}))
     elif r_repeat != r_after:
         out.append(Violation("probe_not_repeatable", "repeat", f"probe repeated immediately differs from its first run: {explain_diff(r_repeat, r_after)}", case, {"history_kinds": kinds}))
+    if case.get("family") == "interpreter":
+        stats.bump("probe:interpreter_family_probe")
+        stats.state("interpreter", meta.get("fails_by"), pspec["entry"], r_alone["ok"])
     if case.get("fresh") and not out:
         for hs in ("0", "1", str(case["seed"] % 4294967295)):
             fr = run_fresh(final_files(case), roles, pspec, hs)
